@@ -235,6 +235,10 @@ func c09Receiver(c *vf.Ctx) {
 	}
 	n := c.N(200, 4000)
 	peers := allIdents()
+	peerIndex := map[peer.ID]int{}
+	for k, p := range peers {
+		peerIndex[p.ID] = k
+	}
 	for i := 0; i < n; i++ {
 		if !c.Mine(sub, i) {
 			continue
@@ -251,7 +255,7 @@ func c09Receiver(c *vf.Ctx) {
 			case 1:
 				return false
 			default:
-				return []byte(p)[len(p)-1]%3 != 0
+				return peerIndex[p]%3 != 0
 			}
 		}
 		c.Cur(sub, i, fmt.Sprintf("ops=%d alpha=%d filter=%d ips=%v", nops, alpha, filterMode, filterIPs))
@@ -496,7 +500,11 @@ func c09Concurrent(c *vf.Ctx) {
 		}
 		r := c.Rand(sub, i)
 		c.Cur(sub, i, "")
-		allowed := func(p peer.ID) bool { return []byte(p)[len(p)-1]%4 != 0 }
+		peerIndex := map[peer.ID]int{}
+		for k, p := range peers {
+			peerIndex[p.ID] = k
+		}
+		allowed := func(p peer.ID) bool { return peerIndex[p]%4 != 0 }
 		rc, err := announce.NewReceiver(nil, "", announce.WithAllowPeer(allowed))
 		if err != nil {
 			continue
